@@ -130,8 +130,8 @@ func fromType(rt *types.Type, vars *Vars, onPath map[*types.Type]bool, depth int
 	if rt == nil {
 		return nil, fmt.Errorf("nil type")
 	}
-	if depth > 200 {
-		return nil, fmt.Errorf("type nesting > 200")
+	if depth > 20000 {
+		return nil, fmt.Errorf("type nesting > 20000")
 	}
 	switch rt.Kind {
 	case types.KNum:
